@@ -162,11 +162,19 @@ class Module:
             if ref_alias is not None:
                 from .normalize import unalias_self
 
+                from .normalize import inline_single_use_temps
+
                 for q_, fi_ in list(self.functions.items()):
+                    keep_ = set(ref_alias.get(q_, ())) if q_ in ref_alias else None
+                    if keep_ is None:
+                        continue  # a function the confirmed tree does not have: nothing to compare its locals with
                     if fi_.cls is not None:
-                        k_ = unalias_self(fi_.node, keep=set(ref_alias.get(q_, ())))
+                        k_ = unalias_self(fi_.node, keep=keep_)
                         if k_:
                             self.unaliased = getattr(self, 'unaliased', 0) + k_
+                    k_ = inline_single_use_temps(fi_.node, keep=keep_)
+                    if k_:
+                        self.temps_inlined = getattr(self, 'temps_inlined', 0) + k_
         for node in ast.walk(self.tree):
             if isinstance(node, ast.Import):
                 for a in node.names:
